@@ -369,8 +369,61 @@ func init() {
 	All["C05"].Run = func(c *an.Ctx) {
 		old(c)
 		reopenKeepsSnapshotIndex(c, "C05.R7")
+		c05truncationBound(c)
 	}
-	All["C05"].Rules += " R7"
+	All["C05"].Rules += " R7 R8"
+}
+
+// c05truncationBound: the index up to which the replication log may be cut is
+// the minimum of the match index over EVERY member the leader knows; a member
+// left out of the minimum (not yet acknowledged, paused) loses the log it still
+// needs and can only be caught up by a snapshot that carries no shard data.
+func c05truncationBound(c *an.Ctx) {
+	const RC = "lib/raftconn"
+	r := c.Rule("C05.R8", "K-LOOPSELECT", RC+":(*RaftNode).prepareDeleteEntryLogProposeData — the truncation bound is the minimum match index over every member (no member is skipped)")
+	f := fn(r, RC+":RaftNode.prepareDeleteEntryLogProposeData")
+	if f == nil {
+		return
+	}
+	// the min update: a comparison `x < minVar` whose true branch assigns minVar
+	upd := f.Find(an.MNode("min update (if m < min { min = m })", func(g *an.Fn, n ast.Node) bool {
+		as, ok := n.(*ast.AssignStmt)
+		if !ok || len(as.Lhs) != 1 {
+			return false
+		}
+		is, ok := g.Parent(g.Parent(as)).(*ast.IfStmt)
+		if !ok {
+			return false
+		}
+		be, ok := ast.Unparen(is.Cond).(*ast.BinaryExpr)
+		if !ok || (be.Op.String() != "<" && be.Op.String() != ">") {
+			return false
+		}
+		l := types.ExprString(as.Lhs[0])
+		return types.ExprString(be.X) == l || types.ExprString(be.Y) == l
+	}))
+	if upd.Len() == 0 {
+		r.Fail(f.Name+": no minimum", c.P.Pos(f.Body.Pos()), "no running-minimum update found in %s", f.Name)
+		return
+	}
+	// every iteration reaches the comparison of the member's match index with the running minimum
+	cmp := &an.Sites{F: f, Desc: "comparison with the running minimum"}
+	for _, s := range upd.List {
+		is := f.Parent(f.Parent(s.Node)).(*ast.IfStmt)
+		if v := f.VertexOf(is.Cond); v >= 0 {
+			cmp.List = append(cmp.List, an.Site{V: v, Node: is.Cond})
+		}
+	}
+	f.LoopVisitsAll(r, cmp, "every member's match index enters the minimum")
+	// and the bound handed on is that minimum
+	gp := f.Find(call(r, RC+":RaftNode.genProposeData"))
+	r.AddSites(gp.Len())
+	for _, s := range gp.List {
+		ce := s.Node.(*ast.CallExpr)
+		if len(ce.Args) == 2 && types.ExprString(ce.Args[1]) != types.ExprString(upd.List[0].Node.(*ast.AssignStmt).Lhs[0]) {
+			r.Fail(f.Name+": bound", c.P.Pos(ce.Pos()), "genProposeData is not handed the running minimum (%s)", types.ExprString(ce.Args[1]))
+		}
+	}
 }
 
 func itoa(v int64) string {
